@@ -321,7 +321,10 @@ reg(Spec(
          "factor splines) applied to the very same spline object. The pool "
          "machine (see C03) adds ScalarProduct and BilinearForm{X,Dx} over its "
          "objects in the middle of histories (moved-from, interval-free and "
-         "point-like objects included). The order-pair sweep (drv_arith) "
+         "point-like objects included), and after every step the "
+         "ScalarProduct of each written object with itself and its identity "
+         "LinearForm are compared with the integrals of its own stored "
+         "pieces. The order-pair sweep (drv_arith) "
          "computes ScalarProduct (both argument orders), BilinearForm{X<1>,"
          "Dx<1>}(a,b) and BilinearForm{X<2>,Dx<2>}(b,a) for every order pair "
          "with max(order) in 5..8, all 12 placements, small and 65..130-point "
@@ -329,7 +332,7 @@ reg(Spec(
          "value non-zero.",
     required=["bilinear", "bilinear:metamorphic",
               "bilinear:same-type-different-state", "forms:scalar-product",
-              "forms:sweep:scalar-product", "forms:sweep:orders:8,5",
+              "forms:after-write", "forms:sweep:scalar-product", "forms:sweep:orders:8,5",
               "forms:sweep:orders:0,8", "forms:sweep:place:PARTIAL_L",
               "forms:bilinear-X-Dx", "place:forms:A_EMPTY",
               "bilinear:no-common-interval", "bilinear:parity:oddxodd",
@@ -369,7 +372,8 @@ reg(Spec(
     required=["linear", "linear:interval-free", "linear:outsize-parity:odd",
               "linear:outsize-parity:even", "linear:vs-apply",
               "bilinear:metamorphic", "forms:linear-X2",
-              "forms:linear-identity", "forms:sweep:linear-X2",
+              "forms:linear-identity", "forms:after-write",
+              "forms:sweep:linear-X2",
               "forms:sweep:linear-identity"] +
              ["linear:outsize:%d" % i for i in range(1, 9)],
     assumptions=[DYADIC, MODEL],
@@ -1213,7 +1217,10 @@ POOL_RULE = ("one case = one history of 150 steps over a pool of 15 splines "
              "snapshots of all objects are compared outside the step's write "
              "set, every live object is walked through its public accessors, "
              "and results are compared with the shadow model on every interval "
-             "of the whole grid. ")
+             "of the whole grid; every object just written is evaluated at "
+             "all grid points and midpoints, asked isZero() and == itself, "
+             "and integrated (ScalarProduct with itself, identity LinearForm) "
+             "against its own stored pieces. ")
 POOL_NT = ("Non-trivial/distinct: arithmetic steps whose operands all denote "
            "non-zero functions, hashed over (kind, orders, windows, grid, "
            "coefficients).")
@@ -1429,7 +1436,8 @@ reg(Spec(
          "with exactly one coefficient changed - at a random position and at "
          "the highest power of the last interval - is never equal; a spline "
          "with exactly one non-zero coefficient is never zero. " + POOL_NT,
-    required=["pred:isZero:true", "pred:isZero:false", "pred:eq:true",
+    required=["c15:predicates-after-write",
+              "pred:isZero:true", "pred:isZero:false", "pred:eq:true",
               "pred:eq:false", "pred:support-eq", "pred:near-misses",
               "order:64", "c15:equality-across-grids"] +
              ["pred:overlap:%s:%s" % (p, t) for p, t in (
